@@ -147,56 +147,76 @@ def is_unwind(f):
     return "unwinding assertion" in d or "recursion unwinding" in d
 
 
+TEST_RE = re.compile(r"(#\[test\]\s*\n\s*fn (kani_concrete_playback_\w+)\(\) \{.*?\n\})", re.S)
+
+
+def nostd_test(test_src):
+    """The crates are #![no_std]: give the generated test access to Vec/vec!."""
+    return test_src.replace("let concrete_vals: Vec<Vec<u8>> = vec![",
+                            "extern crate std;\n    use std::{vec, vec::Vec};\n    let concrete_vals: Vec<Vec<u8>> = vec![", 1)
+
+
+def run_native(scratch, crate, file_rel, harness_name, tests, timeout=600):
+    """Insert the concrete tests next to the harness in the woven copy and run them natively
+    (cargo kani playback = cargo test with the kani library in concrete mode, no CBMC)."""
+    cwd = os.path.join(scratch, "core") if crate == "core" else scratch
+    path = os.path.join(scratch, file_rel)
+    with open(path, encoding="utf-8") as f:
+        src = f.read()
+    idx = src.find(f"fn {harness_name}(")
+    if idx < 0:
+        return {"note": "cannot place the concrete test: harness not found in woven file"}
+    start = src.rfind("//@harness", 0, idx)
+    if start < 0:
+        start = src.rfind("\n", 0, idx) + 1
+    block = "\n".join(nostd_test(t) for t in tests) + "\n"
+    with open(path, "w", encoding="utf-8") as f:
+        f.write(src[:start] + block + src[start:])
+    cmd2 = ["cargo", "kani", "playback", "-Z", "concrete-playback", "--", f"kani_concrete_playback_{harness_name}"]
+    try:
+        p2 = subprocess.run(cmd2, cwd=cwd, env=ENV, stdout=subprocess.PIPE, stderr=subprocess.STDOUT, text=True, timeout=timeout)
+        out = p2.stdout
+        panics = [ln.strip() for ln in out.splitlines() if "panicked at" in ln or ln.strip().startswith("assertion") or "Failed" in ln]
+        m = re.search(r"test result: (\w+)\. (\d+) passed; (\d+) failed", out)
+        assume_only = ("kani::assume should always hold" in out) and not any("assertion" in x or "overflow" in x for x in panics)
+        failed = bool(m and int(m.group(3)) > 0) and not assume_only
+        return {"cmd": " ".join(cmd2), "returncode": p2.returncode, "failed_natively": failed,
+                "test_result": m.group(0) if m else None,
+                "panic_lines": [ln for ln in out.splitlines() if "panicked at" in ln or "assertion failed" in ln or "attempt to" in ln][:10],
+                "output_tail": [ln for ln in out.splitlines() if not ln.startswith(("warning", " ")) and ln.strip()][-15:]}
+    except subprocess.TimeoutExpired:
+        return {"cmd": " ".join(cmd2), "note": "native playback timed out", "failed_natively": False}
+    finally:
+        with open(path, "w", encoding="utf-8") as f:
+            f.write(src)
+
+
 def playback(scratch, h, timeout=300):
-    """Phase 2 for a refuted harness: ask Kani for a concrete test and run it natively."""
+    """Phase 2 for a refuted harness: ask Kani for concrete tests and run them natively on the real code."""
     cwd = os.path.join(scratch, "core") if h.crate == "core" else scratch
     tdir = os.path.join(scratch, f"target-{h.crate}")
     cmd = ["cargo", "kani"] + KANI_FLAGS + ["-Z", "concrete-playback", "--concrete-playback=print", "--target-dir", tdir,
                                             "--harness", h.name, "--harness-timeout", f"{timeout}s"]
     if h.cbmc:
         cmd += ["--cbmc-args"] + h.cbmc.split()
-    out = {"cmd": " ".join(cmd), "test": None, "native": None}
+    out = {"cmd": " ".join(cmd), "tests": [], "native": None}
     try:
         p = subprocess.run(cmd, cwd=cwd, env=ENV, stdout=subprocess.PIPE, stderr=subprocess.STDOUT, text=True, timeout=timeout + 120)
         text = p.stdout
     except subprocess.TimeoutExpired:
         out["note"] = "concrete playback generation timed out"
         return out
-    m = re.search(r"(#\[test\]\s*\n\s*fn (kani_concrete_playback_\w+)\(\) \{.*?\n\})", text, re.S)
     keep = [ln for ln in text.splitlines() if "Failed Checks" in ln or ln.strip().startswith("File:") or "VERIFICATION" in ln]
     out["verifier_summary"] = keep[:40]
-    if not m:
+    tests = [m.group(1) for m in TEST_RE.finditer(text)]
+    if not tests:
         out["note"] = "Kani produced no concrete test for this harness"
         return out
-    out["test"] = m.group(1)
-    test_name = m.group(2)
-    # put the generated test next to the harness (inside the woven module's file) and run it natively
-    path = os.path.join(scratch, h.file)
-    with open(path, encoding="utf-8") as f:
-        src = f.read()
-    marker = f"fn {h.name}("
-    idx = src.find(marker)
-    if idx < 0:
-        out["note"] = "cannot place the concrete test"
-        return out
-    # insert before the attributes of the harness: find start of the line with //@harness before idx
-    start = src.rfind("//@harness", 0, idx)
-    if start < 0:
-        start = src.rfind("\n", 0, idx) + 1
-    src2 = src[:start] + m.group(1) + "\n" + src[start:]
-    with open(path, "w", encoding="utf-8") as f:
-        f.write(src2)
-    cmd2 = ["cargo", "kani", "playback", "-Z", "concrete-playback", "--target-dir", tdir, "--", test_name]
-    try:
-        p2 = subprocess.run(cmd2, cwd=cwd, env=ENV, stdout=subprocess.PIPE, stderr=subprocess.STDOUT, text=True, timeout=600)
-        tail = p2.stdout.splitlines()[-40:]
-        out["native"] = {"cmd": " ".join(cmd2), "returncode": p2.returncode,
-                         "failed_natively": ("FAILED" in p2.stdout or "panicked" in p2.stdout), "output_tail": tail}
-    except subprocess.TimeoutExpired:
-        out["native"] = {"cmd": " ".join(cmd2), "note": "native playback timed out"}
-    finally:
-        with open(path, "w", encoding="utf-8") as f:
-            f.write(src)
+    if h.contract_target:
+        out["note"] = ("harness is a proof_for_contract harness: Kani's concrete values do not cover the contract "
+                       "instrumentation, the native run is attempted but may not reproduce")
+    out["tests"] = tests[:4]
+    out["native"] = run_native(scratch, h.crate, h.file, h.name, tests[:4])
     return out
 
 
